@@ -42,6 +42,7 @@ class RunningFailureMonitor(Monitor):
         self.fsm_seen = {}
         self.master_seen = {}
         w.on_hook('send_state_event', self.on_state)
+        w.on_hook('fsm_process_event', self.on_process_event_received)
 
     def on_state(self, inst, payload):
         key = (inst.nick, inst.inc)
@@ -198,7 +199,8 @@ class RunningFailureMonitor(Monitor):
         if any(i.nick != ev['inst'] and i.running_truth().get(namespec) in RUN_CODES for i in w.live()):
             self.count('crashes_of_one_copy_among_several')
             return
-        record = {'t': ev['t'], 'namespec': namespec, 'on': ev['inst'], 'strategy': strategy, 'state': ev['state']}
+        record = {'t': ev['t'], 'namespec': namespec, 'on': ev['inst'], 'strategy': strategy, 'state': ev['state'],
+                  'learnt': {}}
         self.crashes.append(record)
         self.count('running_crashes_with_application_strategy')
         if strategy in ('RESTART', 'SHUTDOWN'):
@@ -215,6 +217,29 @@ class RunningFailureMonitor(Monitor):
                 if minst is not None and minst.alive and mnick in vws:
                     record['master'] = (mnick, minst.inc)
                     self.count('crashes_with_supvisors_strategy')
+
+    def on_process_event_received(self, inst, status, event):
+        """ The instant at which an instance learns a crash: if the process is, by then, running again somewhere
+        (started by somebody else while the event was on its way), there is no failure left for it to handle. """
+        if event.get('state') not in (100, 200) or 'forced' in event:
+            return
+        w = self.run.world
+        namespec = f"{event['group']}:{event['name']}"
+        source = w.by_identifier.get(status.identifier)
+        for crash in self.crashes:
+            if crash['namespec'] != namespec or crash['on'] != source or (inst.nick, inst.inc) in crash['learnt']:
+                continue
+            if w.now - crash['t'] > 6 * TICK:
+                continue
+            again = [i.nick for i in w.live() if i.running_truth().get(namespec) in RUN_CODES]
+            crash['learnt'][(inst.nick, inst.inc)] = (w.now, again)
+
+    def superseded(self, crash, mnick, minc):
+        learnt = crash['learnt'].get((mnick, minc))
+        if learnt and learnt[1]:
+            self.count('crashes_learnt_after_the_process_was_started_again')
+            return True
+        return False
 
     # -- end ----------------------------------------------------------------------------------------
     def plans_of(self, nick, inc, kind, name, since, until=None):
@@ -349,7 +374,7 @@ class RunningFailureMonitor(Monitor):
         if lost or any(l['t'] >= crash['t'] - 3 * TICK and l['t'] <= crash['t'] + 3 * TICK for l in self.losses):
             self.count('crashes_not_evaluated')
             return
-        if w.now - crash['t'] < 4 * TICK:
+        if w.now - crash['t'] < 4 * TICK or self.superseded(crash, mnick, minc):
             return
         self.count('supvisors_strategy_crashes_evaluated')
         seen = self.closing_seen.get((mnick, minc, expected))
@@ -375,6 +400,8 @@ class RunningFailureMonitor(Monitor):
         # the Master must have been there, in a working state, for the whole period
         if any(loss['t'] >= crash['t'] - 3 * TICK for loss in self.losses) or self.master_changed_since(crash['t']):
             self.count('crashes_not_evaluated')
+            return
+        if self.superseded(crash, mnick, master.inc):
             return
         app = crash['namespec'].split(':')[0]
         t = crash['t']
